@@ -240,7 +240,7 @@ def run(c, facts, tier):
     for key, fn in facts.fns.items():
         if fn.test or "Parser<" not in fn.node["output"]:
             continue
-        if [n for n, _ in fn.params] or F.generic_params(fn.node.get("generics")):
+        if [n for n, _ in fn.params] or F.generic_params(fn.node.get("generics")) or fn.node.get("self") is not None:
             continue  # a parser builder (value or type parameters), expanded at its call sites
         fb = b.fn_ir(key)
         if not fb.get("returns_parser"):
